@@ -35,8 +35,15 @@ static void leak_check(const char* dec, long live_before, bool failed) {
 }
 #define CHECK_RANGE(dec, cond, ...) do { if (!(cond)) { char key_[128]; snprintf(key_, sizeof key_, "%s.reported-size-exceeds-capacity", dec); mc_fail(key_, __VA_ARGS__); } } while (0)
 
+static void run_decoder_in(int d, uint8_t* in, size_t n);
 static void run_decoder(int d, const uint8_t* bytes, size_t n) {
     uint8_t* in = mc_exact(bytes, n);          /* exact-size: any over-read is a heap-buffer-overflow */
+    run_decoder_in(d, in, n); free(in);
+    /* the encodings whose decoders contain vector code: once more with the input ending at a PROT_NONE page - vector loads through compiler builtins
+     * (masked loads) are not instrumented by the address sanitizer, a fault is */
+    if (d >= DEC_RLE_ALL && d <= DEC_DICT) { static mc_arena_t GA; static bool ga; if (!ga) { mc_arena_init(&GA, 1 << 18); ga = true; } if (n <= (1 << 17)) { uint8_t* g = mc_arena_tail(&GA, n); if (n) memcpy(g, bytes, n); run_decoder_in(d, g, n); } }
+}
+static void run_decoder_in(int d, uint8_t* in, size_t n) {
     const char* dn = DNAME[d]; long lb;
     switch (d) {
     case DEC_META: {
@@ -104,7 +111,6 @@ static void run_decoder(int d, const uint8_t* bytes, size_t n) {
             if (ci == 0 && st == 0 && on > 0 && on < 70000) { CAP[ncap++] = on; CAP[ncap++] = on - 1; CAP[ncap++] = on + 1; CAP[ncap++] = on + 3; CAP[ncap++] = on + 7; mc_count("codec-streams.decoded-at-natural-capacity", 1); } } }
         break;
     }
-    free(in);
 }
 
 static void one(int d, const uint8_t* b, size_t n, const char* what, uint64_t key) {
@@ -126,7 +132,8 @@ static const tok_t TOK_LZ4[] = { T("\x00"), T("\x10\x41"), T("\x40\x41\x42\x43\x
 static const tok_t TOK_LZ4X[] = { T("\x00"), T("\x10\x41"), T("\x40\x41\x42\x43\x44"), T("\xf0"), T("\xf0\x00"), T("\xf0\xff"), T("\xf0\xff\xff\x00"), T("\x01"), T("\x0f"), T("\x1f\x41"), T("\x01\x00"), T("\x00\x00"), T("\xff\xff"), T("\x08\x00"), T("\xff"), T("\x00\xff\xff\x00"), T("\x41\x42\x43\x44\x45"), T("\x11\x41\x01\x00"),
                                   T("\x80" "ABCDEFGH"), T("\x95" "ABCDEFGHI" "\x09\x00"), T("\x09\x00"), T("\x8f" "ABCDEFGH" "\x08\x00\x00") };
 static const tok_t TOK_SNAPPYX[] = { T("\x00"), T("\x04"), T("\x00\x41"), T("\x0c\x41\x42\x43\x44"), T("\xf0"), T("\xf4\x05"), T("\xf8\x05\x00"), T("\xfc\xff\xff\xff\xff"), T("\x01"), T("\x01\x01"), T("\x1d\x04"), T("\x02"), T("\x02\x01\x00"), T("\xfe\x01\x00"), T("\x03"), T("\x03\x01\x00\x00\x00"), T("\xff\xff\xff\xff\x0f"), T("\x80"), T("\x02\x00\x00"), T("\x05\x00"),
-                                     T("\x0d"), T("\x11"), T("\x1c" "ABCDEFGH"), T("\x05\x08"), T("\x22\x08\x00") };
+                                     T("\x0d"), T("\x11"), T("\x1c" "ABCDEFGH"), T("\x05\x08"), T("\x22\x08\x00"),
+                                     T("\xfc\x03\x00\x00\x80"), T("\xfc\xff\xff\xff\x7f"), T("\xf8\xff\xff\xff"), T("\xf4\xff\xff") };      /* literal lengths with the top bit of the last length byte set / clear */
 static const tok_t TOK_THRIFT[] = { T("\x00"), T("\x15"), T("\x15\x02"), T("\x16\x02"), T("\x18\x01\x41"), T("\x18\xff\xff\xff\xff\x0f"), T("\x19"), T("\x19\x1c"), T("\x19\xfc\xff\xff\xff\x0f"), T("\x19\xf5\xff\xff\xff\x07"), T("\x1c"), T("\x2c"), T("\x1b"), T("\x1b\x01\x55"), T("\x1b\xff\xff\xff\xff\x0f\x88"), T("\x11"), T("\x12"),
                                     T("\x05\x80\x80\x01"), T("\x1d"), T("\x17"), T("\x29\x1c"), T("\x49\x1c"), T("\x48\x00"), T("\x35\x00"), T("\x19\x10"), T("\x19\x00"), T("\x1a\x1b"), T("\xff"), T("\x80\x80\x80\x80\x80\x80\x80\x80\x80\x80\x01"), T("\x2c\x15\x00\x00") };
 static const tok_t TOK_PLAIN[] = { T("\x00\x00\x00\x00"), T("\x01\x00\x00\x00"), T("\x41"), T("\xff\xff\xff\xff"), T("\xff\xff\xff\x7f"), T("\x00\x00\x00\x80"), T("\x05\x00\x00\x00"), T("\x41\x42\x43\x44\x45"), T("\x00"), T("\xff") };
@@ -275,7 +282,7 @@ static void enumerate(void) {
     token_sequences(DEC_DICT, TOK_RLE, 16, TL, 0x8180, "\x02", 1); token_sequences(DEC_DICT, TOK_RLE, 16, TL - 1, 0x8181, "\x20", 1);
     token_sequences(DEC_DELTA32, TOK_DELTA, 18, TL + 1, 0x8200, NULL, 0); token_sequences(DEC_DELTA64, TOK_DELTA, 18, TL + 1, 0x8201, NULL, 0);
     token_sequences(DEC_DLBA, TOK_DELTA, 18, TL, 0x8202, NULL, 0); token_sequences(DEC_DBA, TOK_DELTA, 18, TL, 0x8203, NULL, 0);
-    token_sequences(DEC_SNAPPY, TOK_SNAPPYX, 25, TL, 0x8300, "\x08", 1); token_sequences(DEC_SNAPPY, TOK_SNAPPYX, 25, TL, 0x8301, NULL, 0);
+    token_sequences(DEC_SNAPPY, TOK_SNAPPYX, 29, TL, 0x8300, "\x08", 1); token_sequences(DEC_SNAPPY, TOK_SNAPPYX, 29, TL, 0x8301, NULL, 0);
     token_sequences(DEC_LZ4, TOK_LZ4X, 22, TL, 0x8400, NULL, 0);
     token_sequences(DEC_META, TOK_THRIFT, 30, TL, 0x8500, NULL, 0); token_sequences(DEC_PAGEHDR, TOK_THRIFT, 30, TL, 0x8501, NULL, 0);
     token_sequences(DEC_PLAIN, TOK_PLAIN, 10, TL, 0x8600, NULL, 0);
@@ -296,6 +303,15 @@ static void enumerate(void) {
             one(DEC_DELTA32, b.p, b.n, nm, mc_mix(0x8a5, (uint64_t)ci)); one(DEC_DELTA64, b.p, b.n, nm, mc_mix(0x8a6, (uint64_t)ci)); }
       }
       CNT = CNT_SMALL; g_cnt_n = 6; g_bw_n = save_bw; ref_buf_free(&b); }
+    /* fixed-width decoders with the input exactly as long as the requested values need (and one byte shorter / longer): the last vector step of a kernel must not touch the byte behind the input */
+    mc_stage("fixed-width.exact-input-sizes");
+    { static int one_cnt[1]; static const int W[] = { 4, 8, 3, 17, 1, 12 }; static uint8_t ib[5000 * 17 + 32]; for (size_t i = 0; i < sizeof ib; i++) ib[i] = (uint8_t)(i * 11 + 3);
+      for (int c = 0; c <= 70 + 10; c++) { int cnt = c <= 70 ? c : CNT_BIG[c - 71]; for (int wi = 0; wi < 6; wi++) for (int dl = -1; dl <= 1; dl++) {
+          long n = (long)cnt * W[wi] + dl; if (n < 0) continue; one_cnt[0] = cnt; CNT = one_cnt; g_cnt_n = 1; char nm[64]; snprintf(nm, sizeof nm, "exact:%d-values-of-%d-bytes%+d", cnt, W[wi], dl);
+          if (W[wi] != 1 && W[wi] != 12) one(DEC_BSS, ib, (size_t)n, nm, mc_mix(0x8b1, ((uint64_t)c << 16) | ((uint64_t)wi << 4) | (uint64_t)(dl + 1)));
+          one(DEC_PLAIN, ib, (size_t)n, nm, mc_mix(0x8b2, ((uint64_t)c << 16) | ((uint64_t)wi << 4) | (uint64_t)(dl + 1))); }
+      }
+      CNT = CNT_SMALL; g_cnt_n = 6; }
     mc_stage("mutation-balls-around-valid-encodings");
     seeds_and_balls();
     mc_stage("nesting-depth-and-payload-free-counts");
